@@ -9,6 +9,7 @@ func init() {
 	verifRegister("VerifC08Chain", VerifC08Chain)
 	verifRegister("VerifC08Chain2", VerifC08Chain2)
 	verifRegister("VerifC08FilterShort", VerifC08FilterShort)
+	verifRegister("VerifC08FilterTransform", VerifC08FilterTransform)
 	verifRegister("VerifC09Proc", VerifC09Proc)
 	verifRegister("VerifC09Dest", VerifC09Dest)
 	verifRegister("VerifC09DLQ", VerifC09DLQ)
@@ -92,6 +93,23 @@ func VerifC08FilterShort() {
 	err := worker.doTask(context.Background(), worker.FirstTask, &Batch{}, newRunAckNacker(worker))
 	w.checkEnd(err)
 	verifObserve("stopped", err != nil)
+	if err == nil {
+		verifCover("clean")
+	} else {
+		verifCover("stopped")
+	}
+}
+
+// VerifC08FilterTransform: four records, a first stage that filters any subset
+// (including adjacent ones) and a second stage that rewrites every record it is
+// given: each surviving record is delivered once, in order, in the version the
+// second stage produced.
+func VerifC08FilterTransform() {
+	n := verifParam("N", 4)
+	w, worker := buildWorker(vCfg{N: n, S: 2, M: 1, dlqSize: 0, dlqTh: 0, destSimple: true,
+		stageKinds: [][]int{{vkSingle, vkFilter}, {vkSingle}}})
+	err := worker.doTask(context.Background(), worker.FirstTask, &Batch{}, newRunAckNacker(worker))
+	w.checkEnd(err)
 	if err == nil {
 		verifCover("clean")
 	} else {
